@@ -131,7 +131,8 @@ impl MainState {
 //@spec
         requires
             state_wf(*old(state)), conn_ok(*old(conn_state), *old(state)),
-            all_mode_args_ok(modes@),
+            // what Command::validate guarantees: the arguments of a CHANNEL mode request fit its letters (a user mode request takes none)
+            is_channel_name(target@) ==> all_mode_args_ok(modes@),
         ensures
             conn_same_but_stream(*final(conn_state), *old(conn_state)), // @prop C11
             // no user can change another user's modes: a MODE on somebody else's nickname changes nothing
